@@ -1,6 +1,6 @@
 (* C11 — Step matching and dispatch: full-text match, right definition, right arguments.
    Statements only; proofs are in theories/StepMatchProofs.v. *)
-From BV Require Import Base UStr StepMatch StepMatchProofs Regex RegexProofs Cuke CukeProofs.
+From BV Require Import Base UStr StepMatch StepMatchProofs StepModules Regex RegexProofs Cuke CukeProofs.
 
 (* A successful match splits the text into the pattern's literals and field pieces - every literal verbatim
    (case-sensitively), every field piece in its field's language -, with nothing left over when the pattern is anchored
@@ -110,6 +110,30 @@ Theorem matcher_switches_take_effect_for_later_registrations :
   (r_default (fst (rstep r CurrentAsDefault)) = r_current r /\ r_current (fst (rstep r CurrentAsDefault)) = r_current r).
 Proof. exact matcher_switches. Qed.
 Print Assumptions matcher_switches_take_effect_for_later_registrations.
+
+(* loading the step modules of a run (load_step_modules = make the matcher in force the default; per module: its operations,
+   then back to the default): every module starts under the matcher that was in force when loading began, whatever the
+   modules before it chose and left chosen - so a module that makes no choice of its own has its patterns compiled by
+   the run's default matcher *)
+Theorem every_step_module_starts_under_the_runs_default_matcher :
+  forall r before, Forall (fun m => forallb keeps_default m = true) before ->
+  r_current (run_from r (load_ops before)) = r_current r /\ r_default (run_from r (load_ops before)) = r_current r.
+Proof. exact every_module_starts_under_the_default. Qed.
+Print Assumptions every_step_module_starts_under_the_runs_default_matcher.
+
+Theorem a_module_without_a_choice_of_its_own_registers_under_the_default :
+  forall r before t p f loc r',
+  Forall (fun m => forallb keeps_default m = true) before ->
+  add_step (run_from r (load_ops before)) t p f loc = (r', Added) ->
+  exists d, defs_of r' t = defs_of (run_from r (load_ops before)) t ++ [d] /\ d_kind d = r_current r /\ d_func d = f.
+Proof. exact a_module_without_a_choice_registers_under_the_default. Qed.
+Print Assumptions a_module_without_a_choice_of_its_own_registers_under_the_default.
+
+Example a_matcher_left_chosen_by_one_module_does_not_reach_the_next :
+  kinds_after_loading (KParse, [(0, Some KRe); (1, None); (2, Some KCfparse); (3, None)])
+  = [(0, KRe); (1, KParse); (2, KCfparse); (3, KParse)]
+  /\ kinds_after_loading (KRe, [(0, None); (1, Some KParse); (2, None)]) = [(0, KRe); (1, KParse); (2, KRe)].
+Proof. vm_compute. split; reflexivity. Qed.
 
 (* regular expressions (the `re` and `re0` matchers) beyond flat patterns: alternation, greedy and lazy * + ?, named,
    unnamed, nested and optional groups.  The backtracking matcher with Python's priority order is sound: *)
